@@ -271,9 +271,9 @@ def run(ctx):
     ctx.cov['complete_le2_bytes_sets'] = {'own': 65793, 'used': 65793 if ctx.thorough else 0}
     ctx.cov['impl_distinct'] = len(recs) - sum(1 for o in recs if o['op'] == 'rt' and len(o['s']) == 0)
     ctx.cov['rejected_by_impl'] = sum(1 for o in recs if o['op'] == 'dec' and not (o['upd'] and o['fin'])) + sum(1 for o in recs if o['op'] == 'basic' and not o['decoded'])
-    ctx.cov['longest_input'] = max(len(o.get('s', o.get('e', o.get('hdr', [])))) for o in recs)
+    ctx.cov['longest_input'] = max([len(o.get('s', o.get('e', o.get('hdr', [])))) for o in recs] or [0])
     ctx.cov['aborted_cases'] = len(aborts)
-    for o in (recs[300], [r for r in recs if r['op'] == 'dec'][1234], [r for r in recs if r['op'] == 'basic'][77]):
+    for o in [l[min(k, len(l) - 1)] for l, k in ((recs, 300), ([r for r in recs if r['op'] == 'dec'], 1234), ([r for r in recs if r['op'] == 'basic'], 77)) if l]:
         ctx.sample({k: (repr(bytes(v)[:60]) if isinstance(v, list) else v) for k, v in o.items()})
     ctx.cov['rule'] = ('tlc_checked_cases: for each of the two implementations ("used" = the base64_* functions the build links, here libnettle; "own" = '
                        'lib/base64.cc compiled from the working tree) every byte string of length <= 2 (complete), all 3-byte strings over 16 boundary bytes, '
